@@ -72,6 +72,14 @@ def assign_ids(t, strategy, r):
             if cands and r.random() < 0.45:
                 n["id"] = cands.pop()
         return t
+    if strategy == "members":
+        # ids spelled like properties / methods / signals of the classes that will refer to them (an id shadows the implicit-this lookup)
+        cands = ["text", "buddy", "enabled", "windowTitle", "close", "show", "clear", "indent", "title", "parent", "font", "update", "hide", "setText", "linkActivated", "objectName"]
+        r.shuffle(cands)
+        for n in ns:
+            if cands and r.random() < 0.7:
+                n["id"] = cands.pop()
+        return t
     if strategy == "dup":
         if len(ns) >= 2:
             a, b = r.sample(ns, 2)
